@@ -385,10 +385,16 @@ def run_contract(c, real_fn, argvals, global_types, extra_roots=()):
             rr.detail = 'argument %s=%r fits no declared variant' % (n, argvals[n])
             return rr
         tys[n] = t
-    roots = [argvals[n] for n, _ in c.params] + list(extra_roots)
+    roots = [argvals[n] for n, _ in c.params] + list(extra_roots) + (list(c.runtime_roots()) if getattr(c, 'runtime_roots', None) else [])
     S0 = snapshot(ab, roots, global_types, 'pre')
     a = {n: value_of(ab, tys[n], argvals[n]) for n, _ in c.params}
-    facts = list(c.runtime_facts(argvals)) if getattr(c, 'runtime_facts', None) else list(c.defs(S0, a))
+    if getattr(c, 'runtime_facts', None):
+        try:
+            facts = list(c.runtime_facts(argvals, ab))
+        except TypeError:
+            facts = list(c.runtime_facts(argvals))
+    else:
+        facts = list(c.defs(S0, a))
     BACKGROUND[:] = ab.background() + list(c.axioms()) + facts
     pre_copy = c.runtime_pre(argvals) if getattr(c, 'runtime_pre', None) else None
     for lab, f in c.requires(S0, a):
